@@ -119,6 +119,8 @@ func main() {
 			res = rmdrv.RunRestartHistory(o)
 		case "hostile":
 			res = rmdrv.RunHostileHistory(o)
+		case "race":
+			res = rmdrv.RunRaceHistory(o)
 		default:
 			fmt.Fprintf(os.Stderr, "unknown mode %s\n", *mode)
 			os.Exit(2)
